@@ -128,6 +128,26 @@ fn main() {
             }
         }
     }
+    // the real in-memory store of swimos_server_app behind the recorder, with and without a
+    // request for the node store that is dropped unused while the first instance runs
+    for (script, remotes) in sc.iter().take(if quick { 3 } else { sc.len() }) {
+        for &(cap, budget, mode) in grid.iter().take(2) {
+            for abandoned in [false, true] {
+                let mut b = base(script, *remotes, cap, budget, mode);
+                b.store = StoreMode::RecordingOverMem { abandoned };
+                let len = match run_one::<AsWorld>(&b, &[], false) {
+                    Ok(r) => r.choices.len() as u64,
+                    Err(e) => vcommon::machinery_failure(&format!("canonical run failed: {}", e)),
+                };
+                sched_cfgs.push(b.clone());
+                for k in (1..=len).step_by(if quick { 3 } else { 1 }) {
+                    let mut c = b.clone();
+                    c.crash_at = Some(k);
+                    cut_cfgs.push(c);
+                }
+            }
+        }
+    }
     run_grid(&ctx, GridSpec { name: "cuts-canonical".into(), cfgs: cut_cfgs.clone(), bound: 0, max_exec_per_cfg: 10, wall_cap_s: if quick { 20.0 } else { 600.0 } });
 
     // --- leg 2: schedules with <= 1 deviation (2 thorough), clean stop at the end or at any position
